@@ -32,7 +32,7 @@ def _init() -> None:
             "time": {"P": LocalTimePattern, "value": rtime, "alpha": "HhmsfFtT:.;'\\\"%r ", "seeds": ["t", "T", "r", "HH:mm:ss", "HH:mm:ss.FFFFFFFFF", "hh:mm:ss.fffffffff tt", "H:m:s", "HH:mm:ss;FFFFFFF", "hh:mm t", "HHmmss"], "exact": ["r", "HH:mm:ss.FFFFFFFFF", "HH:mm:ss.fffffffff", "hh:mm:ss.fffffffff tt", "H:m:s;FFFFFFFFF"], "key": lambda v: v.nanosecond_of_day},
             "date": {"P": LocalDatePattern, "value": rdate, "alpha": "yuMdcg/'\\\"%- .", "seeds": ["d", "D", "uuuu-MM-dd", "yyyy-MM-dd g", "dd/MM/uuuu", "MMMM dd uuuu", "ddd dd MMM uuuu", "uuuuMMdd", "d/M/uuuu", "uuuu-MM-dd c", "yy-MM-dd"], "exact": ["uuuu-MM-dd", "yyyy-MM-dd g", "dd/MM/uuuu", "MMMM dd uuuu", "ddd dd MMM uuuu", "uuuuMMdd", "d/M/uuuu", "dddd d MMMM uuuu", "uuuu-MM-dd c"], "key": lambda v: (v.year, v.month, v.day, v.calendar.id)},
             "datetime": {"P": LocalDateTimePattern, "value": lambda r: rdate(r) + rtime(r), "alpha": "yuMdHhmsfFtTcg/:.;'\\\"% -<>l", "seeds": ["o", "O", "r", "R", "s", "S", "F", "f", "G", "g", "uuuu-MM-dd'T'HH:mm:ss", "dd/MM/uuuu HH:mm", "uuuu-MM-dd'T'HH:mm:ss.FFFFFFFFF", "ld<uuuu-MM-dd>'T'lt<HH:mm:ss>", "l<uuuu-MM-dd HH:mm>", "l<s>", "'at' l<HH:mm dd/MM/uuuu>", "ld<d> lt<t>", "l<", "l<>", "lx<HH>", "ld<uuuu>lt<HH>"], "exact": ["r", "R", "uuuu-MM-dd'T'HH:mm:ss.FFFFFFFFF", "dd/MM/uuuu hh:mm:ss.fffffffff tt"], "key": lambda v: (v.year, v.month, v.day, v.nanosecond_of_day)},
-            "duration": {"P": DurationPattern, "value": lambda r: Duration.from_nanoseconds(r.choice([0, 1, -1, r.randint(-(10**18), 10**18), r.randint(-(10**13), 10**13), r.randint(-86400, 86400) * 10**9])), "alpha": "DHhMmSsfF+-:.'\\\"% ", "seeds": ["o", "j", "-D:hh:mm:ss.FFFFFFFFF", "HH:mm", "M:ss", "S.fff", "-H:mm:ss", "+D 'd' hh:mm"], "exact": ["o", "j", "-D:hh:mm:ss.FFFFFFFFF", "-H:mm:ss.fffffffff", "-S.FFFFFFFFF", "-M:ss.fffffffff"], "key": lambda v: v.to_nanoseconds()},
+            "duration": {"P": DurationPattern, "value": lambda r: Duration.from_nanoseconds(r.choice([0, 1, -1, r.randint(-(10**18), 10**18), r.randint(-(10**13), 10**13), r.randint(-86400, 86400) * 10**9, r.randint(-400, 400) * 86400 * 10**9, r.randint(-400, 400) * 86400 * 10**9 + r.choice([-1, 1, -(10**9), 10**9, -3600 * 10**9, 3600 * 10**9])])), "alpha": "DHhMmSsfF+-:.'\\\"% ", "seeds": ["o", "j", "-D:hh:mm:ss.FFFFFFFFF", "HH:mm", "M:ss", "S.fff", "-H:mm:ss", "+D 'd' hh:mm"], "exact": ["o", "j", "-D:hh:mm:ss.FFFFFFFFF", "-H:mm:ss.fffffffff", "-S.FFFFFFFFF", "-M:ss.fffffffff"], "key": lambda v: v.to_nanoseconds()},
             "instant": {"P": InstantPattern, "value": lambda r: Instant.from_unix_time_ticks(r.choice([0, r.randint(-62135596800 * 10**7, 253402300799 * 10**7), r.randint(-10**17, 10**17)])), "alpha": "yuMdHhmsfFtTcg/:.;'\\\"% -Z", "seeds": ["g", "uuuu-MM-dd'T'HH:mm:ss'Z'", "uuuu-MM-dd'T'HH:mm:ss;FFFFFFFFF'Z'", "dd/MM/uuuu HH:mm:ss"], "exact": ["uuuu-MM-dd'T'HH:mm:ss;FFFFFFFFF'Z'", "uuuu-MM-dd'T'HH:mm:ss.fffffffff"], "key": lambda v: v.to_unix_time_ticks()},
             "annual": {"P": AnnualDatePattern, "value": lambda r: AnnualDate(r.randint(1, 12), r.randint(1, 28)) if r.random() < 0.9 else AnnualDate(2, 29), "alpha": "Md/'\\\"%- ", "seeds": ["G", "MM-dd", "dd/MM", "MMMM dd", "MMM d", "d/M"], "exact": ["G", "MM-dd", "dd/MM", "MMMM dd", "MMM d", "d/M"], "key": lambda v: (v.month, v.day)},
         }
